@@ -1858,3 +1858,32 @@ def pull_work_helpers(u, callers, node_ty, generics):
             h.sig = re.sub(r'fn (\w+)\s*\(', lambda m_: f'fn {m_.group(1)}<{generics}>(', h.sig, count=1) if generics else h.sig
             out.append(h)
     return out
+
+
+def unoption_or_chain(f):
+    """R6: the Option fall-back combinators with a zero-argument closure (or a plain value) become matches, leftmost first:
+    `RECV.or_else(|| E)` -> `(match RECV { Some(v_) => Some(v_), None => E })`, `RECV.unwrap_or_else(|| E)` / `RECV.unwrap_or(E)` -> `(match RECV { Some(v_) => v_, None => E })`
+    (RECV = the method-call chain ending before the combinator; E verbatim)"""
+    n = 0
+    while True:
+        m = re.search(r'\.\s*(or_else|unwrap_or_else|unwrap_or)(\()', f.body)
+        if not m:
+            break
+        close = match_brace(f.body, m.start(2))
+        inner = f.body[m.start(2) + 1:close].strip()
+        kind = m.group(1)
+        if kind != 'unwrap_or':
+            mi = re.match(r'\|\|\s*(.*)$', inner, flags=re.S)
+            if not mi:
+                break
+            inner = mi.group(1).strip()
+        st = _receiver_start(f.body, m.start())
+        if st < 0:
+            break
+        recv = f.body[st:m.start()].strip()
+        some = 'Some(v_)' if kind == 'or_else' else 'v_'
+        f.body = f.body[:st] + f'(match {recv} {{ Some(v_) => {some}, None => {inner.rstrip(",").strip()} }})' + f.body[close + 1:]
+        n += 1
+    if n:
+        f.rewrites.append(('R6', f'{n}x `opt.or_else(|| E)` / `opt.unwrap_or_else(|| E)` / `opt.unwrap_or(E)` -> match (E verbatim)', ''))
+    return f
